@@ -147,7 +147,7 @@ class ValidIdx:
         if e == ('param', 2) and fn.name in self.param_valid:
             v = self.param_valid[fn.name]
             return assume if v is None else v
-        if is_range_loop_var(fa, e):
+        if is_range_loop_var(fa, e, allow_filter=True):
             # the range is 0..len(family)
             for (site, var, flds, ln) in aggregates(fa, 'ops::Range') + aggregates(fa, 'range::Range'):
                 if is_const(flds.get('start'), 0) and self.family_len(flds.get('end')) and fa.cfg.dominates(site[0], at[0]):
